@@ -44,6 +44,11 @@ THEOREMS = {
     "C20_corr_unit_diag_nonconstant_rows_refuted": "REFUTED clause: a non-constant row is not enough for a unit diagonal; the code centres on the across-sample mean, a single sample gives NaN",
     "C20_corr_entry_def": "entry (i,j) = sum_k X[i][k]*X[j][k] / (sqrt S_i * sqrt S_j) with X = P - column mean; NaN when S_i or S_j = 0",
     "C20_corr_over_full_space": "the matrix is corr_of the average (over thetas) predictions at every combination of the full space, one row per distinct sample id in increasing order",
+    "C20_model_is_source_create_single_treatment_effect_map": "the Gallina translation of the WHOLE function batchie.data.create_single_treatment_effect_map, regenerated from /repo's current data.py on this run (Generated/SrcSynergy.v), equals the model effect_map for all inputs (arity = treatment_ids.shape[1]): the arity raise, the mask `np.sum(ids == CONTROL, axis=1) == shape[1] - 1` with the sentinel read from common.py, the three masked arrays (IndexError on a length mismatch), np.sort(...)[:, -1] = row maximum, both loops over np.unique, the control entry 1.0 + continue, the `&` mask, np.any + continue, the mean, the dict stores in insertion order",
+    "C20_model_is_source_create_single_treatment_effect_array": "the translation of the whole function create_single_treatment_effect_array (call of the translated map, np.ones_like, both enumerate loops, dict read with its KeyError, result[idx, treatment_idx] = ...) equals the model effect_array for all inputs",
+    "C20_model_is_source_calculate_synergy": "the translation of the WHOLE function batchie.synergy.calculate_synergy, regenerated from /repo's current synergy.py on this run, equals the model calculate_synergy for all inputs and both modes: the three raises, the call of the translated effect map, the mask and `~mask` selections, the loop over the multi-treatment rows (enumerate(zip(...)), the loop variable `observation` rebinding the parameter), the non-control ids, the inner loop with the strict raise / lenient continue, the length comparison + continue, np.prod(single_effects) - observation, the three appends, np.array of the three result lists (ragged id rows refused)",
+    "C20_source_synergy_def": "hence, on well-formed input, the TRANSLATED calculate_synergy equals the row-by-row definition synergy_def (C20_synergy_def composed with the link)",
+    "C20_source_effect_array_def": "hence, on well-formed input, the TRANSLATED create_single_treatment_effect_array equals effect_array_def",
 }
 ASSUMPTIONS = [
     "floating point rounding is not modelled: the model computes the real-number value over exact rationals; comparison tolerance 1e-9",
@@ -59,7 +64,30 @@ EXPLANATION = ("Model: Model/Metrics.v, Model/Synergy.v, Model/Corr.v; definitio
                "the correlation matrix of a single-sample screen (or of samples with identical average predictions) is NaN; where a "
                "sample's average predictions equal the across-sample mean only up to rounding, the implementation returns normalised rounding "
                "noise instead of NaN (such entries, 0/0 over the reals, are not compared; feature fp-noise-where-undefined). "
-               "Not modelled: the CLI wrappers, predict_* other than predict_viability_avg.")
+               "Not modelled: the CLI wrappers, predict_* other than predict_viability_avg. "
+               "SOURCE LINK (C20_model_is_source_*): calculate_synergy (synergy.py), create_single_treatment_effect_map and "
+               "create_single_treatment_effect_array (data.py) are re-translated as WHOLE functions into Gallina on every run "
+               "(harness/py2gal.py, configurations C20_* of harness/src_functions.py -> coq/theories/Generated/SrcSynergy.v; a function "
+               "outside the translated fragment, a changed parameter list or default, an undeclared variable or an unmatched call stops "
+               "the build) and the theorems prove the hand-written models of Model/Synergy.v EQUAL to the translations for all inputs, "
+               "without side condition; C20_source_synergy_def / C20_source_effect_array_def restate the definitional theorems about "
+               "the translations.  Loops, branches, the raises (message fragment -> ValueError tag 1), continue, the pair-keyed dict "
+               "(store, membership, read with KeyError), list appends, the rebinding of `observation` by the loop, `x - y` on floats "
+               "(exact rationals), the keyword call of create_single_treatment_effect_map (= the translated callee) come from the "
+               "translation.  Trusted: the translator (incl. its Lib/PyRt.v run-time: res_fold, pdict_*, list_set2, enumerate_z) and "
+               "these primitives, one numpy / builtin call each (end of Model/Synergy.v): CONTROL_SENTINEL_VALUE = the constant "
+               "gen_consts reads from common.py; treatment_ids.shape[1] = the explicit arity; a.shape[0] / len(a) = length; "
+               "`a == v` / `a != v` elementwise against a scalar (1-d, 2-d, scalar); np.sum(m, axis=1) = True count per row; `~m`; "
+               "`a & b` (equal lengths, else Err); `a[m]` / `a[m, :]` = the rows where the mask is True, IndexError unless the mask "
+               "has the array's length; np.sort(a, axis=1) = each row sorted; `a[:, -1]` = last entry of each row, IndexError when "
+               "shape[1] = 0; np.unique = sorted distinct values; a.flatten() = concatenated rows; np.any; np.mean of a 1-d array "
+               "(NaN = Err 6 on an empty one); np.prod of a list of floats (1.0 for []); zip (stops at the shortest); np.array of a "
+               "list of ints / floats = the list, of a list of id arrays = the rows if they have one length else ValueError; "
+               "np.ones_like(a, dtype=float); the literal 1.0; logger.warning ignored.  The links prove that none of the raising "
+               "primitives raises where the model does not (equal lengths wherever `&` and a mask are applied, a non-empty selection "
+               "wherever the mean is taken).  The differential cases emap / earr / syn exercise exactly these primitives on numpy. "
+               "Not linked (left to the correspondence): ModelEvaluation.mse / mse_variance / inter_chain_mse_variance, "
+               "retrospective.calculate_mse, generate_full_combinatoric_space, correlation_matrix.")
 
 TAGS = {1: "ValueError", 4: "IndexError", 5: "KeyError"}
 NAN = "nan"
